@@ -12,6 +12,10 @@ verus! {
 derive
 @*/
 #[verifier::external_body] #[derive(Debug)] pub struct IoError { _p: () }
+// SlicePayload (src/types/slice.rs): the parent carried by a slice and its data
+pub struct SlicePayload { pub parent: Option<BlockId>, pub data: Vec<u8> }
+#[verifier::external_body] #[derive(Debug)] pub struct RecvError { _p: () }
+
 
 // `wincode::serialize_into(&mut buffer, &tx).expect(..)` (R8): the encoding of a Transaction(Vec<u8>) is an 8-byte length
 // followed by the payload bytes (what the "+8" in the real code accounts for).  TRUSTED.
@@ -48,6 +52,21 @@ ensures
         (res matches Ok(t) && t.0@.len() > MAX_TRANSACTION_SIZE) ==> final(buffer)@ == old(buffer)@ && !r,
 before `let tx = res.expect("receiving tx");`
         let mut tx_count = tx_count_in;
+@*/
+
+/*@ extract src/consensus/block_producer.rs :: fn apply_parent_ready
+props C10
+sig `oneshot::error::RecvError` => `RecvError`
+requires
+        // the ParentReady sender lives in the pool, which outlives the producer (the `expect`)
+        received is Ok,
+ensures
+        // [C10.parent_ready_for_any_certified_block_is_applied] whatever block the pool reports as
+        // the ready parent - also another block of the SAME slot as the optimistic parent (equivocating previous leader) -
+        // the producer switches to it instead of crashing; the same block is a no-op
+        (received->Ok_0).1 == parent_block_id.1 ==> final(payload).parent == old(payload).parent,
+        (received->Ok_0).1 != parent_block_id.1 ==> final(payload).parent == Some(received->Ok_0),
+        final(payload).data == old(payload).data,
 @*/
 
 // Canary: the same statements under a false contract (claims the slice never fills up); MUST fail.
